@@ -156,9 +156,17 @@ def renderer_of(fn):
     """Classify the body of an `X -> String` closure: ("display", T) for format!("{arg}"), ("strftime", T, fmt) for
     arg.format("..").to_string(); raises NotTranslatable otherwise."""
     text = "\n".join(fn.text)
-    m = re.search(r"(?:chrono::)?(NaiveDateTime|NaiveDate|NaiveTime)::format(?:::<[^>]*>)?\((?:copy|move) [^,]+, const \"((?:[^\"\\]|\\.)*)\"\)", text)
+    m = re.search(r"(?:chrono::)?(NaiveDateTime|NaiveDate|NaiveTime)::format(?:::<[^>]*>)?\((?:copy|move) [^,]+, (?:const \"((?:[^\"\\]|\\.)*)\"|(?:copy|move) (_\d+))\)", text)
     if m:
-        return ("strftime", m.group(1), m.group(2))
+        fmt = m.group(2)
+        if fmt is None:
+            defs = re.findall(r"^\s*%s = const \"((?:[^\"\\]|\\.)*)\";" % re.escape(m.group(3)), text, re.M)
+            if len(defs) != 1:
+                raise mir.NotTranslatable("format string of %s::format is not a single constant" % m.group(1))
+            fmt = defs[0]
+        if "to_string" not in text or "\\" in fmt:
+            raise mir.NotTranslatable("strftime call without to_string, or escapes in the format string")
+        return ("strftime", m.group(1), fmt)
     m = re.search(r"new_display::<&+(?:chrono::)?(NaiveDateTime|NaiveDate|NaiveTime)>", text)
     if m and "std::fmt::format" in text or m and "alloc::fmt::format" in text:
         tpl = re.findall(r"const b\"((?:[^\"\\]|\\.)*)\"", text)
